@@ -187,6 +187,7 @@ def check_status_semantics(run, F, reg, count_inputs=None):
         run.anchor_lost("R-SUCCESS", "ipp::model::StatusCode::is_success")
     elif "ipp::model::StatusCode" in F.adts:
         all_variants = [v["path"] for v in F.adts["ipp::model::StatusCode"]["variants"]]
+        load_const_lists(F)
         tset, why = true_set_eval(unwrap(isb["body"]), {v["path"]: v["discr"] for v in F.adts["ipp::model::StatusCode"]["variants"]})
         if tset is None:
             run.ob("R-SUCCESS", "is_success shape", False, why, site(isb))
@@ -403,6 +404,20 @@ def eval_num(e, disc):
     return None
 
 
+CONST_LISTS = {}    # named constant arrays of unit enum variants: path -> [variant paths] (filled per configuration from the HIR of the constants)
+
+
+def load_const_lists(F):
+    CONST_LISTS.clear()
+    for p, b in F.hir.items():
+        if "Const" in str(b.get("kind")):
+            x = unwrap(b["body"])
+            while x.get("k") in ("ref", "un"):
+                x = unwrap(x["e"])
+            if x.get("k") == "array" and x.get("es") and all(unwrap(el).get("k") == "path" and unwrap(el).get("ctor") for el in x["es"]):
+                CONST_LISTS[p] = [unwrap(el)["ctor"] for el in x["es"]]
+
+
 def eval_bool(e, variant, disc):
     """Evaluate a pure boolean expression over `self` for one concrete variant; None = not understood."""
     e = unwrap(e)
@@ -412,6 +427,17 @@ def eval_bool(e, variant, disc):
     if k == "un" and e.get("op") == "Not":
         v = eval_bool(e["e"], variant, disc)
         return None if v is None else (not v)
+    if k == "mcall" and e.get("name") == "contains" and str(e.get("callee") or "").endswith("::contains") and len(e.get("args", [])) == 1:
+        # `CONST_LIST.contains(self)` with a named constant array of unit variants: membership of this variant in the list
+        r, a = unwrap(e["recv"]), unwrap(e["args"][0])
+        while r.get("k") in ("ref", "un"):
+            r = unwrap(r["e"])
+        while a.get("k") in ("ref", "un"):
+            a = unwrap(a["e"])
+        lst = CONST_LISTS.get(r.get("res", {}).get("path")) if r.get("k") == "path" else None
+        if lst is not None and a.get("k") == "path" and a["res"].get("name") == "self":
+            return variant in lst
+        return None
     if k == "bin" and e["op"] in ("And", "Or"):
         a, b = eval_bool(e["a"], variant, disc), eval_bool(e["b"], variant, disc)
         if a is None or b is None:
